@@ -206,19 +206,10 @@ fn any_o2_map(maxlen: usize) -> BTreeMap<Uuid, Oauth2Session> {
 #[kani::unwind(6)]
 fn c11_oauth2_merge_is_join_1x2() {
     let newer = ValueSetOauth2Session { map: any_o2_map(1), rs_filter: 0 };
-    let wrong_type: bool = kani::any();
     let older_map = any_o2_map(2);
-    let older: ValueSet = if wrong_type {
-        Box::new(ValueSetSession { map: BTreeMap::default() })
-    } else {
-        Box::new(ValueSetOauth2Session { map: older_map, rs_filter: 0 })
-    };
+    let older: ValueSet = Box::new(ValueSetOauth2Session { map: older_map, rs_filter: 0 });
     let trim = any_cid();
     let r = newer.repl_merge_valueset(&older, &trim);
-    if wrong_type {
-        check!(r.is_none(), "C11: a value of another type is not merged (the newer value is taken)");
-        return;
-    }
     let rmap = match r.as_ref().and_then(|v| v.as_oauth2session_map()) {
         Some(m) => *m,
         None => {
@@ -255,6 +246,18 @@ fn c11_oauth2_merge_is_join_1x2() {
     }
     kani::cover!(rmap.len() == 3, "three sessions after merge");
     kani::cover!(rmap.len() == 1 && older_map.len() == 2, "merged or trimmed");
+}
+
+/// A value set of another type is not merged into an OAuth2 session set.
+#[kani::proof]
+#[kani::unwind(6)]
+fn c11_oauth2_merge_other_type() {
+    let newer = ValueSetOauth2Session { map: any_o2_map(1), rs_filter: 0 };
+    let older: ValueSet = Box::new(ValueSetSession { map: BTreeMap::default() });
+    let trim = any_cid();
+    let r = newer.repl_merge_valueset(&older, &trim);
+    check!(r.is_none(), "C11: a value of another type is not merged (the newer value is taken)");
+    kani::cover!(newer.map.len() == 1, "one session on the newer side");
 }
 
 /// Contract of the map model.
